@@ -3,7 +3,7 @@
 //
 //	worker list   <prop> <tier>
 //	worker meta   <prop>
-//	worker run    <prop> <tier> <shard> [-progress file] [-deadline unix] [-poison a,b] [-seed n]
+//	worker run    <prop> <tier> <shard> [-progress file] [-deadline unix] [-poison a,b] [-seed n] [-stopafter case]
 //	worker replay <prop> <tier> <failure.json>
 package main
 
@@ -46,6 +46,7 @@ func main() {
 		var deadline time.Time
 		poison := map[int64]string{}
 		var seed, resume int64
+		stopAfter := int64(-1)
 		a := os.Args[5:]
 		for i := 0; i+1 < len(a); i += 2 {
 			switch a[i] {
@@ -58,6 +59,8 @@ func main() {
 				}
 			case "-resume":
 				resume, _ = strconv.ParseInt(a[i+1], 10, 64)
+			case "-stopafter":
+				stopAfter, _ = strconv.ParseInt(a[i+1], 10, 64)
 			case "-seed":
 				seed, _ = strconv.ParseInt(a[i+1], 10, 64)
 			case "-poison":
@@ -72,6 +75,7 @@ func main() {
 		c := core.NewCtx(id, tier, shard, deadline, progress, poison)
 		c.Seed = seed
 		c.Resume = resume
+		c.StopAfter = stopAfter
 		c.StartWatchdog(40 * time.Second)
 		p.Run(c)
 		enc.Encode(c.Finish())
